@@ -4,6 +4,10 @@ from ..engines import varkind as V
 
 
 def run(ctx):
+    # language-level slips in the modules the property is anchored in (engine Y)
+    from ..engines import gotchas as GY
+    GY.run(ctx, ('specification', 'strategies.rule', 'strategies.constructor.cartesian', 'strategies.constructor.disjoint', 'strategies.strategy', 'utils'))
+    ctx.floor("Y", 1)
     ctx.extra["explanation"] = (
         "static analysis (ast, no execution) of every get_equation: each child's function is paired with "
         "that child's own table, the substitution sends the child's variable to the (product of the) parent "
